@@ -93,6 +93,10 @@ func candidates(prim string, loc string) []WireVal {
 		if loc != "path" {
 			out = append(out, mk("", "empty"))
 		}
+		if loc != "header" {
+			// leading/trailing blanks belong to the value (header values lose optional whitespace on the wire)
+			out = append(out, mk("  pad ded ", "padded"))
+		}
 	case prim == "bool":
 		for _, s := range []string{"true", "false", "1", "0", "t", "f", "T", "F", "TRUE", "FALSE", "True", "False"} {
 			out = append(out, mk(s, "spelling"))
